@@ -42,12 +42,19 @@ import (
 
 // ---- types used by the zoo ----
 
+// message types: several typed fields each, so that a value can be wrong in a field the payload
+// never mentioned (slices, maps and nested pointers are what a reused value would leak through)
 type MsgA struct {
-	N int `json:"n"`
-}
-type MsgB struct {
 	N int    `json:"n"`
 	S string `json:"s"`
+	B bool   `json:"b"`
+}
+type MsgB struct {
+	N int            `json:"n"`
+	S string         `json:"s"`
+	L []int          `json:"l"`
+	M map[string]int `json:"m"`
+	P *MsgA          `json:"p"`
 }
 
 type ZCtx struct{}     // pointer type implements IContext
@@ -104,11 +111,34 @@ func tid(t reflect.Type) int64 {
 	panic("c13: type without token: " + t.String())
 }
 
-func ppA(m **MsgA) int64 {
-	if *m == nil {
-		return 0
+// render is the canonical rendering of a message value: every field, nothing else
+func render(x any) string {
+	switch m := x.(type) {
+	case *msgs.TestHello:
+		if m == nil {
+			return "nil"
+		}
+		return fmt.Sprintf("hello I=%d S=%q unknown=%x", m.I, m.S, []byte(m.ProtoReflect().GetUnknown()))
 	}
-	return int64((*m).N)
+	b, err := stdjson.Marshal(x) // struct fields in declaration order, map keys sorted
+	if err != nil {
+		panic("c13: render: " + err.Error())
+	}
+	return string(b)
+}
+
+// tok is the value token sent to the model: the distinct renderings met while executing one case
+// are numbered 1, 2, ... (so equal token <=> equal rendering, exactly); reset per case by Exec
+var interned map[string]int64
+
+func tok(x any) int64 {
+	r := render(x)
+	if id, ok := interned[r]; ok {
+		return id
+	}
+	id := int64(len(interned) + 1)
+	interned[r] = id
+	return id
 }
 
 // fresh(tid) = a new zero value to decode into / to pass; value(tid, v) = one carrying v
@@ -128,12 +158,13 @@ func fresh(id int64) any {
 	panic(fmt.Sprintf("c13: no message type %d", id))
 }
 
+// valueOf builds the message of recipe v for a direct APICollection.Call
 func valueOf(id int64, v int64) any {
 	switch id {
 	case 10:
-		return &MsgA{N: int(v)}
+		return &MsgA{N: int(v), S: fmt.Sprint("s", v), B: v%2 == 0}
 	case 11:
-		return &MsgB{N: int(v), S: "s"}
+		return &MsgB{N: int(v), S: "s", L: []int{int(v), 1}, M: map[string]int{"k": int(v)}, P: &MsgA{N: int(v) + 1}}
 	case 12:
 		return &msgs.TestHello{I: int32(v), S: "s"}
 	case 16:
@@ -146,29 +177,17 @@ func valueOf(id int64, v int64) any {
 	panic(fmt.Sprintf("c13: no message type %d", id))
 }
 
-func seenOf(x any) int64 {
-	switch m := x.(type) {
-	case *MsgA:
-		return int64(m.N)
-	case *MsgB:
-		return int64(m.N)
-	case *msgs.TestHello:
-		return int64(m.I)
-	case **MsgA:
-		return ppA(m)
-	case *int:
-		return int64(*m)
-	}
-	panic("c13: seenOf")
-}
-
-// decodeTable is the harness's own oracle for serializer.Unmarshal(bytes, new(T)).
-func decodeTable(ser string, data []byte) []any {
+// decodeTable is the harness's own oracle: what THIS payload decodes to, into a FRESH value of
+// every message type, as a value token (serializer.Unmarshal(bytes, new(T)) done independently).
+func decodeTable(ser string, data []byte, inUse map[int64]bool) []any {
 	out := []any{}
 	if ser == "SNil" {
 		return out
 	}
 	for _, id := range msgTids {
+		if inUse != nil && !inUse[id] {
+			continue // no registered method takes this type: it cannot be decoded into
+		}
 		x := fresh(id)
 		var err error
 		if ser == "SJson" {
@@ -179,7 +198,7 @@ func decodeTable(ser string, data []byte) []any {
 			err = errors.New("not a proto message")
 		}
 		if err == nil { // types that are not listed do not decode (DBad)
-			out = append(out, hx.Pair{A: id, B: hx.C("DOk", seenOf(x))})
+			out = append(out, hx.Pair{A: id, B: hx.C("DOk", tok(x))})
 		}
 	}
 	return out
@@ -227,7 +246,11 @@ func bytesOf(s string) []int64 {
 	return r
 }
 
+// strOf reads a string back: the packed form, or a plain list of bytes (hand-written corpus lines)
 func strOf(a any) string {
+	if t, ok := a.(hx.T); ok && t.Name == "U" {
+		return string(unpackBytes(t.Ints(0)))
+	}
 	l := a.([]any)
 	b := make([]byte, len(l))
 	for i, x := range l {
@@ -478,6 +501,8 @@ func Exec(ops []hx.T) (norm []hx.T, obs []any, nontrivial bool, seenTags map[str
 		}
 	}()
 	seenTags = map[string]bool{}
+	interned = map[string]int64{}
+	inUse := map[int64]bool{} // message types some registered method (of any shape) takes as second parameter
 	note := func(tr []any, esc bool, withCB bool) {
 		inv, ok, bad := 0, 0, 0
 		for _, e := range tr {
@@ -512,6 +537,13 @@ func Exec(ops []hx.T) (norm []hx.T, obs []any, nontrivial bool, seenTags map[str
 				opts = append(opts, apientry.WithNameFunc(nf.fn))
 			}
 			col(k).Register(zoo[zid], opts...)
+			for _, m := range methodsOf(zid) {
+				if len(m.ins) >= 2 {
+					if id, ok := typeIDs[m.ins[1]]; ok {
+						inUse[id] = true
+					}
+				}
+			}
 			norm = append(norm, hx.C("OReg", k, describe(zid), hx.C("O", bytesOf(group), nf.term)))
 			obs = append(obs, "BUnit")
 		case "OBuild":
@@ -545,13 +577,15 @@ func Exec(ops []hx.T) (norm []hx.T, obs []any, nontrivial bool, seenTags map[str
 			tr, esc := guarded(func() { apientry.CallWithSerialize(c, ctx, route, data, cb, serOf(ser)) })
 			nontrivial = nontrivial || len(tr) > 0
 			note(tr, esc, withCB)
-			norm = append(norm, hx.C("OCallSer", k, ser, o.Args[2], o.Args[3], decodeTable(ser, data), o.Args[5], withCB, o.Args[7]))
+			norm = append(norm, hx.C("OCallSer", k, ser, o.Args[2], o.Args[3], decodeTable(ser, data, inUse), o.Args[5], withCB, o.Args[7]))
 			obs = append(obs, hx.C("BCall", tr, esc))
 		case "OCall":
 			k, route := o.Int(0), strOf(o.Args[1])
 			var arg any
-			if at := hx.AsTerm(o.Args[2]); at.Name == "AVal" {
+			argTerm := o.Args[2]
+			if at := hx.AsTerm(argTerm); at.Name == "AVal" {
 				arg = valueOf(at.Int(0), at.Int(1))
+				argTerm = hx.C("AVal", at.Int(0), at.Int(1), tok(valueOf(at.Int(0), at.Int(1)))) // token of an identical, untouched value
 			}
 			ctx, withCB := ctxOf(o.Args[3]), o.Bool(4)
 			curBeh = hx.AsTerm(o.Args[5]).Name
@@ -563,7 +597,7 @@ func Exec(ops []hx.T) (norm []hx.T, obs []any, nontrivial bool, seenTags map[str
 			tr, esc := guarded(func() { c.Call(ctx, route, arg, cb) })
 			nontrivial = nontrivial || len(tr) > 0
 			note(tr, esc, withCB)
-			norm = append(norm, o)
+			norm = append(norm, hx.C("OCall", k, o.Args[1], argTerm, o.Args[3], withCB, o.Args[5]))
 			obs = append(obs, hx.C("BCall", tr, esc))
 		case "ODispatch":
 			ks, rid, route := o.Ints(0), o.Int(1), strOf(o.Args[2])
@@ -610,7 +644,7 @@ func Exec(ops []hx.T) (norm []hx.T, obs []any, nontrivial bool, seenTags map[str
 				seenTags["obs:escaped-panic"] = true
 			}
 			rawok := gproto.Unmarshal(data, &msgs.TestHello{}) == nil
-			norm = append(norm, hx.C("ODispatch", o.Args[0], rid, o.Args[2], o.Args[3], decodeTable("SProto", data), rawok,
+			norm = append(norm, hx.C("ODispatch", o.Args[0], rid, o.Args[2], o.Args[3], decodeTable("SProto", data, inUse), rawok,
 				hx.C("CTyp", int64(9)), o.Args[7]))
 			obs = append(obs, hx.C("BDisp", inv, rl, snap.fell, esc))
 		default:
@@ -656,6 +690,7 @@ func Run(cfg *hx.Config) error {
 	enumerateExposure(thorough, emit)
 	enumerateBehaviours(thorough, emit)
 	enumerateDispatch(thorough, emit)
+	enumerateSequences(thorough, emit)
 	for i := 0; i < cfg.N; i++ {
 		if i%3 == 2 {
 			ops, tags := genDispatch(cfg)
